@@ -400,17 +400,19 @@ pub fn main(args: &[String]) {
 }
 
 // ---------------------------------------------------------------- C10: width writers
-const C1: [char; 4] = ['a', 'b', 'Z', '7'];
-const C2: [char; 4] = ['\u{e9}', '\u{fc}', '\u{301}', '\u{f1}']; // incl. a combining mark
-const C3: [char; 4] = ['\u{4e16}', '\u{754c}', '\u{2713}', '\u{20ac}'];
-const C4: [char; 4] = ['\u{1F600}', '\u{1F389}', '\u{1D11E}', '\u{10348}'];
+// every class is instantiated by code points at the edges of its encoding range (first / last lead byte, first /
+// last continuation byte) as well as ordinary members
+const C1: [char; 7] = ['a', 'b', 'Z', '7', '\u{7f}', ' ', '\u{1}'];
+const C2: [char; 7] = ['\u{e9}', '\u{fc}', '\u{301}', '\u{a9}', '\u{80}', '\u{bf}', '\u{7ff}']; // incl. a combining mark
+const C3: [char; 7] = ['\u{4e16}', '\u{754c}', '\u{2713}', '\u{800}', '\u{d7ff}', '\u{e000}', '\u{ffff}'];
+const C4: [char; 7] = ['\u{1F600}', '\u{1F389}', '\u{1D11E}', '\u{10000}', '\u{10ffff}', '\u{3ffff}', '\u{10348}'];
 
 fn ch(class: u64, i: usize) -> char {
     match class {
-        1 => C1[i % 4],
-        2 => C2[i % 4],
-        3 => C3[i % 4],
-        _ => C4[i % 4],
+        1 => C1[i % 7],
+        2 => C2[i % 7],
+        3 => C3[i % 7],
+        _ => C4[i % 7],
     }
 }
 
@@ -420,7 +422,11 @@ fn check_width(idx: usize, case: &Value) -> Option<Value> {
     let cuts: Vec<usize> = case["cuts"].as_array().unwrap().iter().map(|v| v.as_u64().unwrap() as usize).collect();
     let prm = &case["prm"];
     let (mn, mx) = (prm["min"].as_i64().unwrap(), prm["max"].as_i64().unwrap());
-    let fill: char = if prm["fill"].as_u64().unwrap() == 3 { ['\u{4e16}', '\u{2713}'][idx % 2] } else { ['*', '}', ':', '0'][idx % 4] };
+    let fill: char = match prm["fill"].as_u64().unwrap() {
+        3 => ['\u{4e16}', '\u{2713}', '\u{800}', '\u{ffff}'][idx % 4],
+        2 => ['\u{b7}', '\u{e9}', '\u{80}', '\u{7ff}', '\u{bf}'][idx % 5],
+        _ => ['*', '}', ':', '0'][idx % 4],
+    };
     let right = prm["align"] == "R";
     let mut pattern = String::from("{m");
     if mn >= 0 || mx >= 0 {
